@@ -44,6 +44,63 @@ static const char *own2_uri_text(int base) {
     return buf;
 }
 
+/* one response header line for a description (see ow_case_res_header); prelogs 2 = a NUL in the value as well */
+static size_t own2_res_header_line(htp_tx_t *tx, int base, char *buf, size_t cap) {
+    int prelogs = own_arg(base), existing = own_arg(base + 1), is_cl = own_arg(base + 3), amb = own_arg(base + 4);
+    if (existing > 0) {
+        bstr *key = NULL;
+        htp_table_get_index(tx->response_headers, (size_t) existing - 1, &key);
+        size_t n = 0;
+        if (key != NULL) { memcpy(buf, bstr_ptr(key), bstr_len(key)); n = bstr_len(key); }
+        n += snprintf(buf + n, cap - n, ": %s", is_cl ? (amb ? "6" : "5") : "more");
+        return n;
+    }
+    own_hdr_counter++;
+    if (is_cl) return snprintf(buf, cap, "Content-Length: 5");
+    if (prelogs) {
+        size_t n = snprintf(buf, cap, "Bad Name%d : v", own_hdr_counter);
+        if (prelogs > 1) { buf[n++] = 0; buf[n++] = 'w'; }
+        return n;
+    }
+    return snprintf(buf, cap, "N%d: v", own_hdr_counter);
+}
+static void own2_res_headers_n(htp_connp_t *connp, int n, int base) {
+    for (int i = 0; i < n; i++) {
+        char line[256];
+        size_t len = own2_res_header_line(connp->out_tx, base + 5 * i, line, sizeof line);
+        int was = fd_armed;
+        fd_armed = 0;
+        unsigned char *blk = __real_malloc(len ? len : 1);
+        memcpy(blk, line, len);
+        fd_armed = was;
+        htp_status_t rc = htp_process_response_header_generic(connp, blk, len);
+        own_put(rc == HTP_OK);
+        fd_armed = 0;
+        __real_free(blk);
+        fd_armed = was;
+    }
+}
+
+static enum htp_content_encoding_t own2_fmt(int n) {
+    return n == 1 ? HTP_COMPRESSION_GZIP : n == 2 ? HTP_COMPRESSION_DEFLATE : n == 3 ? HTP_COMPRESSION_LZMA : HTP_COMPRESSION_NONE;
+}
+static htp_status_t own2_dec_cb(htp_tx_data_t *d) { (void) d; return HTP_OK; }
+/* the beginning of a gzip, a raw deflate and an LZMA (alone format, 64 KiB dictionary) stream: output is produced, the stream is not finished */
+static const unsigned char own2_gz[] = {
+    0x1f,0x8b,0x08,0x00,0x00,0x00,0x00,0x00,0x00,0x03,0xec,0xca,0xd1,0x09,0xc0,0x20,0x0c,0x04,0xd0,0x55,0x6e,0x80,0xe2,0x52,0x36,0x90,0x42,
+    0xe4,0xc4,0x04,0xec,0xf8,0xed,0x1a,0xc2,0xc1,0xfb,0x7c,0x6e,0x11,0xc4,0xe6,0x8a,0xfb,0x42,0xf9,0x93,0xf8,0x25,0x87,0xa1,0xec,0x2d,0x14,
+    0xd1,0x39,0xe6,0xb2,0xcc,0x06,0xd7,0xd5,0xd5,0xd5,0xd5,0xd5,0x3d,0xe4,0x7e,0x00,0x00,0x00,0xff,0xff };
+static const unsigned char own2_lz[] = {
+    0x5d,0x00,0x00,0x01,0x00,0xff,0xff,0xff,0xff,0xff,0xff,0xff,0xff,0x00,0x34,0x19,0x49,0xee,0x8d,0xe9,0x17,0x89,0x3a,0x33,0x5f,0xfd,0xf6,
+    0x44,0xe6,0x13,0x18,0x16,0xf2,0x2e,0x85,0x7d,0x07,0xbb,0x1d,0x52 };
+/* the text of a Content-Encoding token code (see ow_cetok_of) */
+static const char *own2_cetok(int n) {
+    switch (n) {
+        case 1: return "gzip"; case 2: return "deflate"; case 3: return "lzma"; case 11: return "x-gzipp"; case 12: return "deflated";
+        case 4: return "none"; case 5: return "br"; default: return "gzip";       /* 6: any token beyond the layer limit */
+    }
+}
+
 static void own2_case(char **f, int nf) {
     if (nf < 4 || strcmp(f[0], "own2") != 0) { printf("?bad-case"); return; }
     const char *fn = f[1];
@@ -120,6 +177,120 @@ static void own2_case(char **f, int nf) {
         own_begin(k);
         htp_status_t rc = htp_tx_state_request_line(tx);
         own_put(rc == HTP_OK);
+        htp_connp_destroy_all(cp);
+        own_end(); own_flush();
+        htp_config_destroy(cfg);
+    } else if (strcmp(fn, "res_header") == 0) {
+        htp_cfg_t *cfg = own_cfg(own_arg(0));
+        htp_connp_t *cp = htp_connp_create(cfg);
+        htp_connp_tx_create(cp);
+        cp->out_tx = cp->in_tx;
+        own2_res_headers_n(cp, own_arg(1), 3);
+        own_nout = 0;
+        own_begin(k);
+        own2_res_headers_n(cp, own_arg(2), 3 + 5 * own_arg(1));
+        htp_connp_destroy_all(cp);
+        own_end(); own_flush();
+        htp_config_destroy(cfg);
+    } else if (strcmp(fn, "res_buffer") == 0) {
+        /* args: log on, calls, the last call is over the hard limit, consolidate after the first call, clear at the end */
+        static unsigned char data[16] = "0123456789";
+        htp_cfg_t *cfg = own_cfg(own_arg(0));
+        htp_connp_t *cp = htp_connp_create(cfg);
+        htp_connp_tx_create(cp);
+        cp->out_tx = cp->in_tx;
+        own_begin(k);
+        for (int i = 0; i < own_arg(1); i++) {
+            cp->out_current_data = data;
+            cp->out_current_len = 10;
+            cp->out_current_read_offset = 10;
+            cp->out_current_consume_offset = 0;
+            if (own_arg(2) && i == own_arg(1) - 1) cp->out_tx->cfg->field_limit_hard = 5;
+            if (own_arg(3) && i > 0) {
+                unsigned char *d = NULL; size_t l = 0;
+                own_put(htp_connp_res_consolidate_data(cp, &d, &l) == HTP_OK);
+            } else own_put(htp_connp_res_buffer(cp) == HTP_OK);
+        }
+        if (own_arg(4)) htp_connp_res_clear_buffer(cp);
+        own_put(cp->out_buf == NULL);
+        cp->out_current_data = NULL;
+        htp_connp_destroy_all(cp);
+        own_end(); own_flush();
+        htp_config_destroy(cfg);
+    } else if (strcmp(fn, "decomp_create") == 0) {
+        /* args: log on, LZMA enabled, format */
+        htp_cfg_t *cfg = own_cfg(own_arg(0));
+        if (!own_arg(1)) htp_config_set_lzma_memlimit(cfg, 0);
+        htp_connp_t *cp = htp_connp_create(cfg);
+        own_begin(k);
+        htp_decompressor_t *d = htp_gzip_decompressor_create(cp, own2_fmt(own_arg(2)));
+        own_put(d == NULL);
+        htp_gzip_decompressor_destroy(d);
+        own_put((int) htp_list_size(cp->conn->messages));
+        htp_connp_destroy_all(cp);
+        own_end(); own_flush();
+        htp_config_destroy(cfg);
+    } else if (strcmp(fn, "decomp_used") == 0) {
+        htp_cfg_t *cfg = own_cfg(0);
+        htp_connp_t *cp = htp_connp_create(cfg);
+        htp_tx_t *tx = htp_connp_tx_create(cp);
+        htp_decompressor_t *d = htp_gzip_decompressor_create(cp, own2_fmt(own_arg(0)));
+        int n = 0;
+        if (d != NULL) {
+            d->callback = own2_dec_cb;
+            htp_tx_data_t td;
+            memset(&td, 0, sizeof td);
+            td.tx = tx;
+            if (own_arg(0) == 3) { td.data = own2_lz; td.len = sizeof own2_lz; }
+            else if (own_arg(0) == 2) { td.data = own2_gz + 10; td.len = sizeof own2_gz - 10; }
+            else { td.data = own2_gz; td.len = sizeof own2_gz; }
+            htp_gzip_decompressor_decompress(d, &td);
+            cp->out_decompressor = d;
+            n = 1;
+        }
+        own_begin(k);
+        htp_connp_destroy_all(cp);
+        own_put(n);
+        own_end(); own_flush();
+        htp_config_destroy(cfg);
+    } else if (strcmp(fn, "res_state_headers") == 0) {
+        /* args: log on, LZMA enabled, a chain exists already, the fast-path format, slow path, the tokens */
+        htp_cfg_t *cfg = own_cfg(own_arg(0));
+        if (!own_arg(1)) htp_config_set_lzma_memlimit(cfg, 0);
+        htp_config_set_lzma_layers(cfg, 100);
+        int limit = 0;
+        for (int i = 5; i < own_nargs; i++) if (own_arg(i) == 6 && limit == 0) limit = i - 5;
+        htp_config_set_response_decompression_layer_limit(cfg, limit);
+        htp_connp_t *cp = htp_connp_create(cfg);
+        htp_tx_t *tx = htp_connp_tx_create(cp);
+        cp->out_tx = tx;
+        if (own_arg(2)) {
+            char l0[] = "Content-Encoding: gzip";
+            htp_process_response_header_generic(cp, (unsigned char *) l0, strlen(l0));
+            htp_tx_state_response_headers(tx);
+            htp_header_t *h0 = htp_table_get_c(tx->response_headers, "content-encoding");
+            if (h0 != NULL) { bstr_free(h0->value); h0->value = bstr_dup_c("inflate"); }
+        }
+        char v[512];
+        size_t vn = 0;
+        v[0] = 0;
+        if (own_arg(4)) for (int i = 5; i < own_nargs; i++) vn += snprintf(v + vn, sizeof v - vn, "%s%s", i > 5 ? "," : "", own2_cetok(own_arg(i)));   /* a single separator: the tokenizer steps over exactly one */
+        else if (own_arg(3)) vn = snprintf(v, sizeof v, "%s", own_arg(3) == 1 ? "GZip" : own_arg(3) == 2 ? "deflate" : "lzma");
+        if (vn > 0) {
+            htp_header_t *h0 = htp_table_get_c(tx->response_headers, "content-encoding");
+            if (h0 != NULL) { bstr_free(h0->value); h0->value = bstr_dup_c(v); }
+            else {
+                char line[600];
+                size_t ln = snprintf(line, sizeof line, "Content-Encoding: %s", v);
+                htp_process_response_header_generic(cp, (unsigned char *) line, ln);
+            }
+        }
+        own_begin(k);
+        htp_status_t rc = htp_tx_state_response_headers(tx);
+        own_put(rc == HTP_OK);
+        int n = 0;
+        for (htp_decompressor_t *d = cp->out_decompressor; d != NULL; d = d->next) n++;
+        own_put(n);
         htp_connp_destroy_all(cp);
         own_end(); own_flush();
         htp_config_destroy(cfg);
